@@ -658,8 +658,11 @@ def p_list(e, kind, rules):
 
 def p_restore(e, kind, rules_opt):
     def modifies(e, cache):
-        # iter_top_down().any(..)
+        # iter_top_down().any(..): OptimizedExprTopDownIterator descends into Seq / Choice / PosPred / NegPred / Rep /
+        # Opt / Push only; a RestoreOnErr the pass has just built (bottom-up) is yielded but not entered
         k = e[0]
+        if k == "restore":
+            return False
         if k == "push":
             return True
         if k == "ident":
